@@ -15,6 +15,7 @@ GEN = r'''
 #include <tao/pegtl/contrib/analyze_traits.hpp>
 %(includes)s
 #include <string>
+#include <vector>
 #include <cstdio>
 namespace vf {
 using namespace tao::pegtl;
@@ -31,32 +32,49 @@ template< typename T > struct complete< T, std::void_t< decltype( sizeof( T ) ) 
 // symbolic run of analyze_cycles_impl::work( rule, accum ) over the real traits; the consumption bits of the opaque
 // sub-rules stay symbolic.  visits: "i=accum" for every visit of R<i>; backs: accum at every re-entry of a rule on the stack.
 struct rec { std::string visits, backs; bool notraits = false; };
-template< typename Rule, typename... Stack > std::string ev( rec& r, const std::string& acc );
+using accs = std::vector< std::string >;   // per rule on the stack (innermost first): consumption accumulated since that rule was entered
+template< typename Rule, typename... Stack > std::string ev( rec& r, const std::string& acc, const accs& sacc );
 inline std::string lor( const std::string& a, const std::string& b ) { return "(" + a + " || " + b + ")"; }
 inline std::string land( const std::string& a, const std::string& b ) { return "(" + a + " && " + b + ")"; }
-template< typename Self, typename... Stack, typename... Rs > std::string ev_seq( rec& r, const std::string& acc, type_list< Rs... > )
-{  // a = false; for( r : subs ) a = a || work( r, accum || a );   (a sub-rule is visited only while a is false)
+inline accs child_accs( const accs& sacc, const std::string& a )
+{  // the child's stack is ( Self, Stack... ): since Self was entered `a` has been accumulated, the outer rules add it to theirs
+   accs out; out.push_back( a );
+   for( const auto& x : sacc ) out.push_back( lor( x, a ) );
+   return out;
+}
+template< typename Self, typename... Stack, typename... Rs > std::string ev_seq( rec& r, const std::string& acc, const accs& sacc, type_list< Rs... > )
+{  // a = false; for( r : subs ) a = a || work( r, accum || a );
    std::string a = "0";
-   ( ( a = lor( a, ev< Rs, Self, Stack... >( r, lor( acc, a ) ) ) ), ... );
+   ( ( a = lor( a, ev< Rs, Self, Stack... >( r, lor( acc, a ), child_accs( sacc, a ) ) ) ), ... );
    return a;
 }
-template< typename Self, typename... Stack, typename... Rs > std::string ev_sor( rec& r, const std::string& acc, type_list< Rs... > )
+template< typename Self, typename... Stack, typename... Rs > std::string ev_sor( rec& r, const std::string& acc, const accs& sacc, type_list< Rs... > )
 {  // a = true; for( r : subs ) a = work( r, accum ) && a;
    std::string a = "1";
-   ( ( a = land( ev< Rs, Self, Stack... >( r, acc ), a ) ), ... );
+   ( ( a = land( ev< Rs, Self, Stack... >( r, acc, child_accs( sacc, "0" ) ), a ) ), ... );
    return a;
 }
-template< typename Rule, typename... Stack > std::string ev( rec& r, const std::string& acc )
+template< std::size_t J, typename Rule, typename First, typename... Rest > constexpr std::size_t index_of()
+{
+   if constexpr( std::is_same_v< Rule, First > ) { return J; }
+   else { return index_of< J + 1, Rule, Rest... >(); }
+}
+template< typename Rule, typename... Stack > std::string ev( rec& r, const std::string& acc, const accs& sacc )
 {
    static_assert( sizeof...( Stack ) < 24, "analyze_traits nesting too deep for the premise generator" );
    using T = analyze_traits< Rule, typename Rule::rule_t >;
-   if constexpr( ( std::is_same_v< Rule, Stack > || ... ) ) { r.backs += acc + ";"; return acc; }
+   if constexpr( ( std::is_same_v< Rule, Stack > || ... ) ) {
+      // re-entry of a rule that is on the stack: every rule is also analysed as a root (accum = false), so the re-entry is
+      // reported unless something was consumed since THAT rule was entered
+      r.backs += sacc[ index_of< 0, Rule, Stack... >() ] + ";";
+      return acc;
+   }
    else if constexpr( !complete< T >::value ) { r.notraits = true; return "0"; }   // analyze< G >() does not compile for such a grammar
    else if constexpr( int( T::type_v ) >= 100 ) { const std::string i = std::to_string( int( T::type_v ) - 100 ); r.visits += i + "=" + acc + ";"; return "g_c[" + i + "]"; }
-   else if constexpr( T::type_v == analyze_type::any ) { (void)ev_seq< Rule, Stack... >( r, acc, typename T::subs_t() ); return "1"; }
-   else if constexpr( T::type_v == analyze_type::opt ) { (void)ev_seq< Rule, Stack... >( r, acc, typename T::subs_t() ); return "0"; }
-   else if constexpr( T::type_v == analyze_type::seq ) { return ev_seq< Rule, Stack... >( r, acc, typename T::subs_t() ); }
-   else { return ev_sor< Rule, Stack... >( r, acc, typename T::subs_t() ); }
+   else if constexpr( T::type_v == analyze_type::any ) { (void)ev_seq< Rule, Stack... >( r, acc, sacc, typename T::subs_t() ); return "1"; }
+   else if constexpr( T::type_v == analyze_type::opt ) { (void)ev_seq< Rule, Stack... >( r, acc, sacc, typename T::subs_t() ); return "0"; }
+   else if constexpr( T::type_v == analyze_type::seq ) { return ev_seq< Rule, Stack... >( r, acc, sacc, typename T::subs_t() ); }
+   else { return ev_sor< Rule, Stack... >( r, acc, sacc, typename T::subs_t() ); }
 }
 }
 %(decls)s
@@ -114,7 +132,7 @@ def trait_exprs(rules, includes=(), decls=''):
               dict(consumes=expr, left={i: expr}, back=expr|None)}, expr = C boolean expression over g_c[i] | '0' | '1'"""
     keys = sorted(rules)
     src = GEN % dict(decls=decls, includes='\n'.join('#include <%s>' % i for i in includes),
-                     prints='\n'.join('   { rec r; const std::string e = ev< %s >( r, "0" ); std::printf("%%s\\t%%s\\t%%s\\t%%s\\n", "%s", r.notraits ? "NOTRAITS" : e.c_str(), r.visits.c_str(), r.backs.c_str()); }' % (rules[k], k) for k in keys))
+                     prints='\n'.join('   { rec r; const std::string e = ev< %s >( r, "0", accs() ); std::printf("%%s\\t%%s\\t%%s\\t%%s\\n", "%s", r.notraits ? "NOTRAITS" : e.c_str(), r.visits.c_str(), r.backs.c_str()); }' % (rules[k], k) for k in keys))
     h = hashlib.sha256((src + vfcore.include_hash()).encode()).hexdigest()[:20]
     d = os.path.join(vfcore.WORK, 'traits')
     os.makedirs(d, exist_ok=True)
